@@ -52,6 +52,14 @@ def main():
                 ProtocolCodeGenerator(Path(xml_root)).generate(Path(out_root + ".first"))
                 del writes[:]
                 ProtocolCodeGenerator(Path(xml_root)).generate(Path(out_root))
+            elif mode == "twice-with-clean-between":
+                # what `protocol.py` does, within one process: generate, remove the output, generate again
+                import shutil
+
+                ProtocolCodeGenerator(Path(xml_root)).generate(Path(out_root))
+                shutil.rmtree(out_root)
+                del writes[:]
+                ProtocolCodeGenerator(Path(xml_root)).generate(Path(out_root))
             elif mode == "other-tree-first":
                 # process-wide state (module-level caches) must not leak from one tree into the next
                 ProtocolCodeGenerator(Path(xml_root + ".other")).generate(Path(out_root + ".first"))
